@@ -73,7 +73,7 @@ Definition variant_of_flows (sl ip : flow) : option variant :=
            else if flow_eqb sl slice_flow_as_found then Some false else None in
   let b := if flow_eqb ip aslice_inplace_repaired then Some true
            else if flow_eqb ip aslice_inplace_as_found then Some false else None in
-  match a, b with Some x, Some y => Some (mkVar x y) | _, _ => None end.
+  match a, b with Some x, Some y => Some (mkVar x y false) | _, _ => None end.
 
 Definition flows_known (sl ip jn st asl : flow) (v : variant) : bool :=
   match variant_of_flows sl ip with
